@@ -218,6 +218,15 @@ var RuleNames = map[int]string{ROk: "ok", RNoEntries: "no-entries", RCode: "tran
 	RFHash: "file-hash", Other: "other"}
 
 func classifyField(fe *ach.FieldError, inBatch bool) int {
+	if !inBatch {
+		// outside a BatchError only FileControl.Validate reports modelled fields; an unwrapped
+		// "Amount"/"TransactionCode" field error comes from SEC specific rules (ValidAmountForCodes ...)
+		switch fe.FieldName {
+		case "BatchCount", "EntryAddendaCount", "EntryHash", "TotalDebitEntryDollarAmount", "TotalCreditEntryDollarAmount":
+		default:
+			return Other
+		}
+	}
 	switch fe.FieldName {
 	case "TransactionCode":
 		return RCode
@@ -311,7 +320,9 @@ func Classify(err error, kind int) int {
 			if errors.As(be.Err, &sc) {
 				return RDirection
 			}
-			if kind == KStd && errors.Is(be.Err, ach.ErrBatchTransactionCode) {
+			// ErrBatchTransactionCode is also used by SEC specific code rules; the ADV
+			// code refusal of ValidTranCodeForServiceClassCode reports a code 81..88
+			if c, ok := be.FieldValue.(int); ok && kind == KStd && isADVCode(c) && errors.Is(be.Err, ach.ErrBatchTransactionCode) {
 				return RAdvCode
 			}
 		}
